@@ -24,10 +24,11 @@ theorem C13_hit_skips_expr (c : Cfg) (s : EState) (op : BinOp) (l r : Expr) (v :
     (h : memoGetE c (snapE (.bin op l r)) s = some v) : evalE c s (.bin op l r) = (.ok v, s) := by
   simp only [evalE, h]
 
-/-- a successful evaluation is remembered under the node's snapshot -/
-theorem C13_remembered (c : Cfg) (hm : c.memo = true) (k : Snap) (v : Val) (s : EState) :
+/-- a successful evaluation of a node the working memory holds is remembered under the node's snapshot -/
+theorem C13_remembered (c : Cfg) (hm : c.memo = true) (k : Snap) (v : Val) (s : EState)
+    (hr : (snapGet k c.wm.atoms).isSome = true) :
     memoGetA c k (finishA c k (.ok v, s)).2 = some v := by
-  simp only [finishA, memoPutA, memoGetA, hm, if_true]
+  simp only [finishA, memoPutA, memoGetA, hm, hr, Bool.and_self, if_true]
   rw [snapGet_snapSet]
   simp
 
